@@ -9,6 +9,7 @@ import (
 	"os"
 	"os/exec"
 	"strings"
+	"sync/atomic"
 	"time"
 )
 
@@ -38,6 +39,27 @@ type Solver struct {
 	Bin     string
 	Timeout int // ms per query
 	Errors  []string
+	// hung is set by the watchdog when the process did not answer within
+	// its own per-query timeout plus 10 s and was killed
+	hung  int32
+	Hangs int
+}
+
+// guard arms a wall-clock watchdog for one exchange with the solver: z3's
+// soft timeout is not honoured by every procedure (seen with string
+// constraints), and a solver that never answers would hang the check. When it
+// fires the process is killed; the pending read fails, the process is
+// restarted with empty scopes and the current path ends as inconclusive.
+func (s *Solver) guard() func() {
+	d := time.Duration(s.Timeout)*time.Millisecond + 10*time.Second
+	cmd := s.cmd
+	t := time.AfterFunc(d, func() {
+		atomic.StoreInt32(&s.hung, 1)
+		if cmd != nil && cmd.Process != nil {
+			cmd.Process.Kill()
+		}
+	})
+	return func() { t.Stop() }
 }
 
 // SolverBin is the solver binary used by NewSolver.
@@ -128,7 +150,13 @@ func (s *Solver) send(cmd string) {
 func (s *Solver) Push() { s.send("(push 1)"); s.depth++ }
 
 // Pop closes a scope.
-func (s *Solver) Pop() { s.send("(pop 1)"); s.depth-- }
+func (s *Solver) Pop() {
+	if s.depth == 0 {
+		return // the process was restarted inside this scope
+	}
+	s.send("(pop 1)")
+	s.depth--
+}
 
 // Depth is the current scope depth.
 func (s *Solver) Depth() int { return s.depth }
@@ -147,6 +175,19 @@ func (s *Solver) Raw(cmd string) { s.send(cmd) }
 func (s *Solver) readLine() string {
 	line, err := s.out.ReadString('\n')
 	if err != nil {
+		if atomic.LoadInt32(&s.hung) == 1 {
+			atomic.StoreInt32(&s.hung, 0)
+			s.Hangs++
+			s.NUnk++
+			if s.cmd != nil {
+				s.cmd.Wait()
+				s.cmd = nil
+			}
+			if e := s.start(); e != nil {
+				panic(EngineError{"solver restart failed: " + e.Error()})
+			}
+			panic(Inconclusive{"the solver did not answer within its timeout plus 10 s (killed and restarted)"})
+		}
 		panic(EngineError{"solver pipe closed: " + err.Error()})
 	}
 	return strings.TrimRight(line, "\r\n")
@@ -155,6 +196,7 @@ func (s *Solver) readLine() string {
 // Check runs check-sat in the current scope.
 func (s *Solver) Check() Result {
 	start := time.Now()
+	defer s.guard()()
 	s.send("(check-sat)")
 	var r Result
 	for {
@@ -215,6 +257,7 @@ func (s *Solver) GetValues(terms []string) map[string]string {
 	if len(terms) == 0 {
 		return res
 	}
+	defer s.guard()()
 	s.send("(get-value (" + strings.Join(terms, " ") + "))")
 	// read one balanced s-expression
 	var sb strings.Builder
